@@ -5,6 +5,7 @@ import (
 	"fmt"
 	"sort"
 
+	"github.com/openziti/storage/ast"
 	"github.com/openziti/storage/boltz"
 	"go.etcd.io/bbolt"
 )
@@ -53,7 +54,7 @@ func (w *World) CheckIndexes(tx *bbolt.Tx, m *Model) error {
 				}
 			}
 			got := map[string]string{}
-			if b := rawBucket(tx, "root", boltz.IndexesBucket, sc.Name, field); b != nil {
+			if b := rawBucket(tx, m.Cfg.PathOf(boltz.IndexesBucket, sc.Name, field)...); b != nil {
 				_ = b.ForEach(func(k, v []byte) error {
 					got[string(k)] = string(v)
 					return nil
@@ -107,7 +108,7 @@ func (w *World) CheckIndexes(tx *bbolt.Tx, m *Model) error {
 				sort.Strings(want[r])
 			}
 			got := map[string][]string{}
-			if b := rawBucket(tx, "root", boltz.IndexesBucket, sc.Name, FRoles); b != nil {
+			if b := rawBucket(tx, m.Cfg.PathOf(boltz.IndexesBucket, sc.Name, FRoles)...); b != nil {
 				var ferr error
 				_ = b.ForEach(func(k, v []byte) error {
 					child := b.Bucket(k)
@@ -214,9 +215,9 @@ func (w *World) CheckLinks(tx *bbolt.Tx, m *Model) error {
 					return fmt.Errorf("links %s of %q: IterateLinks %q, model %q", key, id, iter, want)
 				}
 				// raw bucket holds exactly the typed ids
-				rawPath := []string{"root", side.store, id, side.field}
+				rawPath := m.Cfg.PathOf(side.store, id, side.field)
 				if cc, isChild := m.childCfg(side.store); isChild {
-					rawPath = []string{"root", cc.Parent, id, "ext_" + side.store, side.field}
+					rawPath = m.Cfg.PathOf(cc.Parent, id, "ext_"+side.store, side.field)
 				}
 				raw, err := typedIDs(rawBucket(tx, rawPath...))
 				if err != nil {
@@ -312,6 +313,27 @@ func (w *World) CheckKids(tx *bbolt.Tx, m *Model) error {
 			return fmt.Errorf("child store %s: QueryIds(true sort by name desc, id) = %q (count %d), expected %q", name, sorted, scount, wantSorted)
 		}
 		_ = byName
+		// cursor-style iteration with paging through the child store: skip and limit count child entities only
+		if pq, perr := ast.Parse(ks, "true skip 1 limit 2"); perr == nil {
+			var paged []string
+			for cur := ks.IterateIds(tx, pq); cur.IsValid(); cur.Next() {
+				paged = append(paged, string(cur.Current()))
+			}
+			wantPaged := population
+			if len(wantPaged) > 1 {
+				wantPaged = wantPaged[1:]
+			} else {
+				wantPaged = nil
+			}
+			if len(wantPaged) > 2 {
+				wantPaged = wantPaged[:2]
+			}
+			if fmt.Sprint(paged) != fmt.Sprint(wantPaged) && !(len(paged) == 0 && len(wantPaged) == 0) {
+				return fmt.Errorf("child store %s: IterateIds(true skip 1 limit 2) = %q, expected %q (population %q)", name, paged, wantPaged, population)
+			}
+		} else {
+			return fmt.Errorf("child store %s: parsing a paged query: %v", name, perr)
+		}
 		var iter, valid []string
 		for cur := ks.IterateIds(tx, boolTrue); cur.IsValid(); cur.Next() {
 			iter = append(iter, string(cur.Current()))
